@@ -3,5 +3,6 @@ CONSTANTS
   NW = 3
   K = 1
   PerThread = TRUE
+  Shape = "seedDraw"
 CONSTRAINT Emit
 CHECK_DEADLOCK FALSE
